@@ -1829,6 +1829,20 @@ int32 parseServerHello(ssl_t *ssl, int32 hsLen, unsigned char **cp,
     }
 # endif /* USE_TLS_1_3 */
 
+    /* A required extended master secret is also missing when the server
+        sent no extensions at all */
+    if (ssl->extFlags.req_extended_master_secret == 1 &&
+        ssl->extFlags.require_extended_master_secret == 1
+#  ifdef USE_TLS_1_3
+        && !NGTD_VER(ssl, v_tls_1_3_any)
+#  endif
+        )
+    {
+        psTraceErrr("Server doesn't support extended master secret\n");
+        ssl->err = SSL_ALERT_HANDSHAKE_FAILURE;
+        return MATRIXSSL_ERROR;
+    }
+
 # ifdef USE_OCSP_MUST_STAPLE
     /* Will catch cases where a server does not send any extensions at all */
     if (ssl->extFlags.req_status_request == 1)
